@@ -123,3 +123,28 @@ void h_prod(void) {
 #endif
   VF_REACH();
 }
+
+/* large-ell variant for the wrap-freedom obligation (C04): operands are uninitialised (= nondeterministic) local arrays, no
+ * copies, no per-element harness loops, so that symbolic execution only unrolls the kernel's own loop.  The analysis gives
+ * the array elements their layout ranges by position. */
+void h_prod_big(void) {
+  uint64_t xbig[XW ? XW : 1];
+#if Y32
+  uint32_t ybig[YW ? YW : 1];
+#else
+  uint64_t ybig[YW ? YW : 1];
+#endif
+  uint64_t rbig[NRES];
+#if FORM == 0
+  q120_mat1col_product_baa_precomp pre = VFT_BAA_INIT;
+  FN(&pre, ELL, (q120b*)rbig, (const q120a*)xbig, (const q120a*)ybig);
+#elif FORM == 1
+  q120_mat1col_product_bbb_precomp pre = VFT_BBB_INIT;
+  FN(&pre, ELL, (q120b*)rbig, (const q120b*)xbig, (const q120b*)ybig);
+#else
+  q120_mat1col_product_bbc_precomp pre = VFT_BBC_INIT;
+  FN(&pre, ELL, (q120b*)rbig, (const q120b*)xbig, (const q120c*)ybig);
+#endif
+  for (unsigned i = 0; i < NRES; ++i) VF_OUT[i] = rbig[i];
+  VF_REACH();
+}
